@@ -116,7 +116,7 @@ def run(ctx):
             ctx.count("mixed_base_numeric_comparisons")
             a, b = oracle.prefix_value(real.prefix), nf.prefix_value()
             if abs(a - b) > abs(b) * Fraction(1, 10**9):
-                ctx.violation("C02:mixed-base-scale-differs", f"{what}: {model.show(t)} prefix scale {float(a)!r} vs {float(b)!r}", {"term": t})
+                ctx.violation("C02:mixed-base-scale-differs", f"{what}: {model.show(t)} prefix scale {core.sf(a)!r} vs {core.sf(b)!r}", {"term": t})
             return
         want_prefix = next(iter(nf.prefix.items()), None)
         p = real.prefix
@@ -344,7 +344,7 @@ def dimension_and_prefix_trees(ctx, env, rng, n):
         val = {bb: e for bb, e in val.items() if e}
         exact_value = Fraction(1)
         for bb, e in val.items():
-            exact_value *= Fraction(bb) ** int(e) if e.denominator == 1 else Fraction(float(bb) ** float(e))
+            exact_value *= Fraction(bb) ** int(e) if e.denominator == 1 else Fraction(core.sf(bb) ** core.sf(e))
         if exact_value == 0 or not (Fraction(1, 10**250) < exact_value < 10**250):
             ctx.count("prefix_trees_skipped_out_of_float_range")
             continue
@@ -361,7 +361,7 @@ def dimension_and_prefix_trees(ctx, env, rng, n):
             if prev is not p:
                 ctx.violation("C02:same-prefix-different-objects", f"{''.join(map(str, desc))}", {"desc": desc})
         elif abs(got - exact_value) > abs(exact_value) * Fraction(1, 10**9):
-            ctx.violation("C02:mixed-base-scale-differs", f"{''.join(map(str, desc))} = {float(got)!r}, exact {float(exact_value)!r}", {"desc": desc})
+            ctx.violation("C02:mixed-base-scale-differs", f"{''.join(map(str, desc))} = {core.sf(got)!r}, exact {core.sf(exact_value)!r}", {"desc": desc})
 
 
 def sweep(ctx, env):
